@@ -1,8 +1,8 @@
 /-
   Line-protocol replay of M4 (Queue).  Trace acceptance at the granularity of Model/Queue.lean.
-    run <id> m4 max=<n> allow=<0|1> prefill=<v,v,..>
+    run <id> m4 max=<n> allow=<0|1> silent=<0|1> prefill=<v,v,..>
     call <t> add <v> <till|-> <force 0|1> | push <v> | extend <v,v> | pop <till|-> | pop_one | pop_all | len | close | add_stop
-    env fire <x> | env signal <t> | env close
+    env fire <x> | env signal <t> | env stall <t> | env close
     step <t> acq M | rel M | park | woke True|False | closed <b> | till <x> <b> | len <n> | append <v> | appendleft <v>
              | popleft <v> | clear [..] | close
     ret <t> <kind> <result>
@@ -58,7 +58,7 @@ def parseList (w : String) : Option (List Nat) :=
 
 def isIdle (p : PC) : Bool := match p with | .idle _ => true | _ => false
 
-def start (max : Nat) (allow : Bool) (dq0 : List Nat) : Sim := { s := init max allow dq0 }
+def start (max : Nat) (allow : Bool) (silent : Bool) (dq0 : List Nat) : Sim := { s := init max allow silent dq0 }
 
 def feed (m : Sim) (ws : List String) : Except String Sim :=
   match ws with
@@ -91,6 +91,9 @@ def feed (m : Sim) (ws : List String) : Except String Sim :=
     | none => .error "bad till"
   | ["env", "signal", t] => match t.toNat? with
     | some t => .ok { m with s := signal m.s t }
+    | none => .error "bad thread"
+  | ["env", "stall", t] => match t.toNat? with
+    | some t => .ok { m with s := stall m.s t }
     | none => .error "bad thread"
   | ["env", "close"] => .ok { m with s := envClose m.s }
   | "step" :: t :: lab =>
